@@ -17,8 +17,8 @@ from .common import Finding, coq_list
 
 T0 = 1_500_000_000
 
-WORKER = r'''
-import json, sys
+WORKER = r"""
+import json, re, sys
 import numpy as np
 from sasmodels.core import load_model
 from sasmodels.direct_model import call_kernel
@@ -27,16 +27,18 @@ for line in sys.stdin:
     cmd = json.loads(line)
     if cmd["op"] == "load":
         m = load_model(path, dtype=cmd["dtype"], platform="dll")
-        k = m.make_kernel([np.array([1.0, 2.0])])
+        k = m.make_kernel([np.array([1.0, 2.0, 3.0])])
         r = call_kernel(k, dict(scale=1.0, background=0.0))
         k.release()
         import os
         from sasmodels import generate
-        tag = generate.tag_source(generate.make_source(m.info)["dll"])
-        print(json.dumps([float(x) for x in r] + [m.info.id, tag, os.path.basename(m.dllpath)])); sys.stdout.flush()
+        src = generate.make_source(m.info)["dll"]
+        tag = generate.tag_source(src)
+        mk = re.search(r"VERIF_K (\d+)", src)
+        print(json.dumps([float(x) for x in r] + [m.info.id, tag, os.path.basename(m.dllpath), int(mk.group(1)) if mk else -1])); sys.stdout.flush()
     elif cmd["op"] == "quit":
         break
-'''
+"""
 
 
 NAMES = ["verif_c17", "verif_c17_" + "long_plugin_name_" * 4 + "x"]      # 9 and 79 characters
@@ -47,7 +49,7 @@ def model_text(mid, name="verif_c17"):
     return ('name = "%s"\ntitle = "C17 probe"\ndescription = "text %d"\ncategory = "shape:sphere"\n'
             'parameters = [\n    ["s", "", 1.0, [-10, 10], "", ""],\n%s]\n'
             'source = ["%s_helper.c"]\n'
-            'Iq = "return %d.0*q + helper_value();"\n' % (name, mid, extra, name, mid))
+            'Iq = "return %d.0*q + helper_value() + VERIF_H*q*q;"\n' % (name, mid, extra, name, mid))
 
 
 def c_text(cid):
@@ -55,6 +57,8 @@ def c_text(cid):
 
 
 class World:
+    """A scratch plug-in plus a private view of the sasmodels package: every file of the package is a symbolic
+    link to the tree under test except the two kernel templates, which are copies this history may edit."""
     def __init__(self, root, idx, name="verif_c17"):
         self.name = name
         self.dir = os.path.join(root, "h%d" % idx)
@@ -64,18 +68,38 @@ class World:
         self.cpath = os.path.join(self.dir, name + "_helper.c")
         self.wpath = os.path.join(self.dir, "worker.py")
         open(self.wpath, "w").write(WORKER)
-        self.clock = 0
+        src = os.path.join(common.REPO, "sasmodels")
+        self.pkg = os.path.join(self.dir, "pkg")
+        dst = os.path.join(self.pkg, "sasmodels")
+        os.makedirs(dst)
+        for fn in os.listdir(src):
+            if fn in ("kernel_header.c", "kernel_iq.c", "__pycache__"):
+                continue
+            os.symlink(os.path.join(src, fn), os.path.join(dst, fn))
+        self.hpath = os.path.join(dst, "kernel_header.c")
+        self.kpath = os.path.join(dst, "kernel_iq.c")
+        self.hbase = open(os.path.join(src, "kernel_header.c")).read()
+        self.kbase = open(os.path.join(src, "kernel_iq.c")).read()
         self.proc = None
 
-    def write(self, path, text):
+    def write(self, path, text, t):
         with open(path, "w") as f:
             f.write(text)
-        t = T0 + self.clock
-        os.utime(path, (t, t))
+        os.utime(path, (T0 + t, T0 + t))
+
+    def write_file(self, which, tid, t):
+        if which == "M":
+            self.write(self.mpath, model_text(tid, self.name), t)
+        elif which == "C":
+            self.write(self.cpath, c_text(tid), t)
+        elif which == "H":
+            self.write(self.hpath, self.hbase + "\n#define VERIF_H %d.0\n" % tid, t)
+        else:
+            self.write(self.kpath, "// VERIF_K %d\n" % tid + self.kbase, t)
 
     def start(self):
         env = dict(os.environ)
-        env.update(PYTHONPATH=common.REPO, SAS_DLL_PATH=self.cache, PYTHONHASHSEED="0", SAS_OPENCL="none",
+        env.update(PYTHONPATH=self.pkg, SAS_DLL_PATH=self.cache, PYTHONHASHSEED="0", SAS_OPENCL="none",
                    PYTHONDONTWRITEBYTECODE="1")
         self.proc = subprocess.Popen([common.PY, self.wpath, self.mpath], env=env, stdin=subprocess.PIPE,
                                      stdout=subprocess.PIPE, stderr=subprocess.PIPE, text=True, cwd=self.dir)
@@ -101,20 +125,26 @@ class World:
         return json.loads(line), None
 
 
+FILES = "MCHK"
+
+
 def gen_history(rng, n):
+    """init = {file: (text id, time)}; ops = ("Edit", file, text id, new time) | ("Load", bits) | ("Fresh",).
+    Each file keeps its own clock: an edit advances the time of the file it touches by 1..5 s and says nothing
+    about the other files (a newer C file next to an older model file, a template restored with `cp -p`...)."""
+    cur = {f: (rng.randint(1, 9), rng.randint(0, 30)) for f in FILES}
+    init = dict(cur)
+    seen = {f: [cur[f][0]] for f in FILES}
     ops = []
-    m, c = rng.randint(1, 9), rng.randint(1, 9)
-    seen_m, seen_c = [m], [c]
-    init = (m, c)
     for _ in range(n):
         r = rng.random()
-        if r < 0.22:
-            m = rng.choice(seen_m) if rng.random() < 0.4 else rng.randint(1, 40)   # revert or new text
-            seen_m.append(m); ops.append(("EditM", m))
-        elif r < 0.40:
-            c = rng.choice(seen_c) if rng.random() < 0.4 else rng.randint(1, 40)
-            seen_c.append(c); ops.append(("EditC", c))
-        elif r < 0.50:
+        if r < 0.45:
+            f = rng.choice("MMMCCHK")
+            tid = rng.choice(seen[f]) if rng.random() < 0.4 else rng.randint(1, 40)      # revert or new text
+            t = cur[f][1] + rng.choice([1, 1, 2, 5])
+            cur[f] = (tid, t); seen[f].append(tid)
+            ops.append(("Edit", f, tid, t))
+        elif r < 0.53:
             ops.append(("Fresh",))
         else:
             ops.append(("Load", rng.choice([64, 64, 32])))
@@ -125,29 +155,27 @@ def gen_history(rng, n):
 def run_history(root, idx, init, ops):
     name = NAMES[idx % len(NAMES)] if idx else NAMES[0]     # every other history uses a long plug-in name
     w = World(root, idx, name)
-    w.write(w.mpath, model_text(init[0], name))
-    w.write(w.cpath, c_text(init[1]))
-    obs, errors, sources, names = [], [], set(), []
-    cur_m, cur_c = init
+    for f in FILES:
+        w.write_file(f, init[f][0], init[f][1])
+    obs, errors, names = [], [], []
     try:
         for op in ops:
-            if op[0] == "EditM":
-                w.clock += 1; cur_m = op[1]; w.write(w.mpath, model_text(op[1], name))
-            elif op[0] == "EditC":
-                w.clock += 1; cur_c = op[1]; w.write(w.cpath, c_text(op[1]))
+            if op[0] == "Edit":
+                w.write_file(op[1], op[2], op[3])
             elif op[0] == "Fresh":
                 w.stop()
             elif op[0] == "Load":
                 vals, err = w.load("double" if op[1] == 64 else "single")
                 if vals is None:
-                    errors.append(err); obs.append((-1, -1)); continue
-                names.append((str(op[1]), vals[2], vals[3], vals[4]))
-                a = vals[1] - vals[0]
-                b = 2 * vals[0] - vals[1]
-                obs.append((int(round(a)), int(round(b))))
-                sources.add((cur_m, cur_c))
+                    errors.append(err); obs.append((-1, -1, -1, -1)); continue
+                r1, r2, r3 = vals[0], vals[1], vals[2]        # r(q) = M q + C + H q^2 at q = 1, 2, 3
+                h = (r3 - 2 * r2 + r1) / 2.0
+                m = r2 - r1 - 3 * h
+                c = r1 - m - h
+                names.append((str(op[1]), vals[3], vals[4], vals[5]))
+                obs.append((int(round(m)), int(round(c)), int(round(h)), int(vals[6])))
         libs = sorted(f for f in os.listdir(w.cache) if f.endswith(".so"))
-        return dict(init=list(init), ops=[list(o) for o in ops], observed=obs, libs=libs, errors=errors, plugin_name=name, names=names)
+        return dict(init={f: list(v) for f, v in init.items()}, ops=[list(o) for o in ops], observed=obs, libs=libs, errors=errors, plugin_name=name, names=names)
     finally:
         w.stop()
 
@@ -158,72 +186,77 @@ def main(run):
     run.prove(["C17/Property.v"])
     root = run.scratch.sub("c17")
     hist = []
-    # corpus: constant change, included-file change, precision switch, revert, fresh process
-    hist.append(((3, 5), [("Load", 64), ("EditM", 4), ("Load", 64), ("EditC", 7), ("Load", 64), ("Load", 32),
-                          ("EditM", 3), ("EditC", 5), ("Load", 64), ("Fresh",), ("EditC", 9), ("Load", 32), ("Load", 64)]))
-    n = 9 if not thorough else 110
+    # corpus: constant change, included-file change, precision switch, revert, fresh process, template edits; then the
+    # histories that need per-file times: a model file older than its C file is edited (its own time advances, still
+    # older than the C file's); one template is edited while the other one stays newer
+    hist.append((dict(M=(3, 0), C=(5, 0), H=(1, 0), K=(1, 0)),
+                 [("Load", 64), ("Edit", "M", 4, 1), ("Load", 64), ("Edit", "C", 7, 2), ("Load", 64), ("Load", 32),
+                  ("Edit", "M", 3, 3), ("Edit", "C", 5, 4), ("Load", 64), ("Fresh",), ("Edit", "C", 9, 5), ("Load", 32), ("Load", 64),
+                  ("Edit", "H", 2, 6), ("Load", 64), ("Edit", "K", 6, 7), ("Load", 64), ("Edit", "H", 1, 8), ("Load", 32)]))
+    hist.append((dict(M=(3, 1), C=(5, 9), H=(1, 0), K=(1, 0)),
+                 [("Load", 64), ("Edit", "M", 4, 2), ("Load", 64), ("Edit", "M", 6, 3), ("Load", 32), ("Edit", "C", 8, 10), ("Load", 64)]))
+    hist.append((dict(M=(2, 0), C=(2, 0), H=(1, 3), K=(1, 20)),
+                 [("Load", 64), ("Edit", "H", 3, 4), ("Load", 64), ("Edit", "H", 7, 5), ("Load", 64), ("Edit", "K", 5, 21), ("Load", 64),
+                  ("Edit", "H", 5, 6), ("Load", 32), ("Load", 64)]))
+    hist.append((dict(M=(2, 0), C=(2, 0), H=(1, 30), K=(1, 2)),
+                 [("Load", 64), ("Edit", "K", 3, 3), ("Load", 64), ("Edit", "K", 4, 4), ("Load", 64)]))
+    n = 8 if not thorough else 110
     for _ in range(n):
         hist.append(gen_history(rng, rng.randint(4, 12)))
     from concurrent.futures import ThreadPoolExecutor
     with ThreadPoolExecutor(max_workers=8) as ex:
         res = list(ex.map(lambda a: run_history(root, a[0], a[1][0], a[1][1]), enumerate(hist)))
-    # the named hypothesis of C17_load_current, checked on the sources of the explored histories:
-    # distinct generated sources must have distinct tags
-    from sasmodels import generate
-    tags = {}
-    stats = dict(histories=len(res), ops={}, loads=0, fresh=0, reverts=0, libs=0)
+    stats = dict(histories=len(res), ops={}, loads=0, fresh=0, reverts=0, libs=0, edits_by_file={}, edits_not_newest=0)
     distinct = set()
+    pool = set()
     for r in res:
         desc = dict(r)
-        cur = list(r["init"])
-        seen = [tuple(cur)]
+        cur = {f: r["init"][f][0] for f in FILES}
+        tim = {f: r["init"][f][1] for f in FILES}
+        pool.add(tuple(cur[f] for f in FILES))
+        seen = [tuple(cur[f] for f in FILES)]
         k = 0
         for oi, op in enumerate(r["ops"]):
             stats["ops"][op[0]] = stats["ops"].get(op[0], 0) + 1
-            if op[0] == "EditM":
-                cur[0] = op[1]
-            elif op[0] == "EditC":
-                cur[1] = op[1]
+            if op[0] == "Edit":
+                cur[op[1]] = op[2]; tim[op[1]] = op[3]
+                stats["edits_by_file"][op[1]] = stats["edits_by_file"].get(op[1], 0) + 1
+                if op[3] <= max(v for f, v in tim.items() if f != op[1]):
+                    stats["edits_not_newest"] += 1         # the edited file is not the newest file afterwards
+                pool.add(tuple(cur[f] for f in FILES))
             elif op[0] == "Load":
                 got = r["observed"][k]; k += 1
                 stats["loads"] += 1
-                if tuple(cur) in seen[:-1] and tuple(cur) != seen[-1]:
+                now = tuple(cur[f] for f in FILES)
+                if now in seen[:-1] and now != seen[-1]:
                     stats["reverts"] += 1
-                seen.append(tuple(cur))
-                if got == (-1, -1):
+                seen.append(now)
+                if tuple(got) == (-1, -1, -1, -1):
                     run.add(Finding("C17:load-error", "history %s: load raised: %s" % (r["ops"], r["errors"][:1]), desc))
                     break
-                if tuple(got) != tuple(cur):
-                    run.add(Finding("C17:stale", "after history %s the load evaluated model text %d / C text %d but the files hold %d / %d" % (
-                        r["ops"][:oi + 1], got[0], got[1], cur[0], cur[1]), desc))
+                if tuple(got) != now:
+                    run.add(Finding("C17:stale", "after history %s (initial files %s) the load evaluated (model, C, kernel_header, kernel_iq) texts %s but the files hold %s" % (
+                        r["ops"][:oi + 1], r["init"], list(got), list(now)), desc))
                     break
         distinct.add(json.dumps(r["ops"]))
         stats["libs"] += len(r["libs"])
         run.sample(dict(init=r["init"], ops=r["ops"], observed=r["observed"], libraries=r["libs"]))
     # tag-injectivity check on the explored sources
-    pool = set()
-    for r in res:
-        cur = list(r["init"])
-        pool.add(tuple(cur))
-        for op in r["ops"]:
-            if op[0] == "EditM":
-                cur[0] = op[1]
-            if op[0] == "EditC":
-                cur[1] = op[1]
-            pool.add(tuple(cur))
     tagmap = {}
-    for (m, c) in sorted(pool):
-        t = "%08X" % (0xffffffff & zlib.crc32((model_text(m) + c_text(c)).encode()))
-        if t in tagmap and tagmap[t] != (m, c):
-            run.notes.append("CRC32 collision among probe texts %s and %s (hypothesis of C17_load_current not met for this pool)" % (tagmap[t], (m, c)))
-        tagmap[t] = (m, c)
+    for quad in sorted(pool):
+        t = "%08X" % (0xffffffff & zlib.crc32((model_text(quad[0]) + c_text(quad[1]) + "H%d K%d" % (quad[2], quad[3])).encode()))
+        if t in tagmap and tagmap[t] != quad:
+            run.notes.append("CRC32 collision among probe texts %s and %s (hypothesis of C17_load_current not met for this pool)" % (tagmap[t], quad))
+        tagmap[t] = quad
     traces = 0
     if not run.proof_broken():
         def opc(o):
-            return {"EditM": "EditM %d", "EditC": "EditC %d", "Load": "Load %d"}.get(o[0], "Fresh") % tuple(o[1:]) if o[0] != "Fresh" else "Fresh"
-        body = ";\n".join("(%d, %d, 1, %s, %s, %d)" % (
-            r["init"][0], r["init"][1], coq_list(["(%s)" % opc(o) for o in r["ops"]], "op"),
-            coq_list(["(%d, %d)" % tuple(x) for x in r["observed"]], "(nat * nat)"), len(r["libs"])) for r in res)
+            if o[0] == "Edit":
+                return "Edit%s %d %d" % (o[1], o[2], o[3])
+            return "Fresh" if o[0] == "Fresh" else "Load %d" % o[1]
+        body = ";\n".join("(%s, %s, %s, %s)" % (
+            ", ".join("MkFile %d %d" % tuple(r["init"][f]) for f in FILES), coq_list(["(%s)" % opc(o) for o in r["ops"]], "op"),
+            coq_list(["(%d, %d, %d, %d)" % tuple(x) for x in r["observed"]], "(nat * nat * nat * nat)"), len(r["libs"])) for r in res)
         text = ("From Coq Require Import List Arith.\nImport ListNotations.\nFrom SM Require Import C17.Model C17.Exec.\n"
                 "Definition cases : list Case := [\n%s\n].\nEval vm_compute in (check_cases cases).\n" % body)
         rc, vals, err = common.run_coq_shards([text], run.scratch.sub("coq"), prefix="c17")[0]
@@ -233,7 +266,7 @@ def main(run):
             traces = len(res)
             for i in vals[0]:
                 r = res[i]
-                run.add(Finding("C17:corr", "history %s: observations %s / %d libraries differ from the cache model" % (r["ops"], r["observed"], len(r["libs"])), dict(r)))
+                run.add(Finding("C17:corr", "history %s from %s: observations %s / %d libraries differ from the cache model" % (r["ops"], r["init"], r["observed"], len(r["libs"])), dict(r)))
     # library file names: "sas<bits>_<id>_<tag>.so" as C17.Names.lib_basename builds it
     allnames = sorted({tuple(x) for r in res for x in r.get("names", [])})
     stats["library_names"] = len(allnames)
@@ -253,9 +286,9 @@ def main(run):
                     b, mid, t, o, b, mid, t), dict(bits=b, model_id=mid, tag=t, observed=o)))
     run.coverage.update(evaluations=stats["loads"], distinct_nontrivial=len(distinct), traces_validated_against_impl=traces,
                         input_distribution=stats)
-    run.assumptions += ["file modification times advance by one second per edit (set with os.utime), as the property assumes",
-                        "the kernel templates are not edited in the real runs (they live in /repo); template edits are covered by the model only",
+    run.assumptions += ["every edit advances the modification time of the file it touches by 1..5 s (os.utime); the times of different files are unrelated",
+                        "the worker imports sasmodels through a directory of symbolic links to the tree under test in which only kernel_header.c and kernel_iq.c are private copies that the history edits",
                         "hypothesis tag_injective of C17_load_current: checked on the probe texts of this run (CRC32 over model+C text)"]
     run.finish_args = dict(level="proof",
-                           rule="edit/load/evaluate histories (4-13 ops): new or reverted model text (constant + parameter table variant), new or reverted included C text, loads in double/single precision, process restarts; distinct = distinct op sequences",
+                           rule="edit/load/evaluate histories (4-19 ops) over four files with independent clocks: new or reverted model text (constant + parameter table variant), included C text, kernel_header.c text, kernel_iq.c text; loads in double/single precision, process restarts; distinct = distinct op sequences",
                            trusted=["harness/c17.py (probe plug-in whose result encodes which texts were compiled)"])
